@@ -45,6 +45,16 @@ def three_ways(chk, stream, texts, spec=True):
             if r != ra:
                 chk.violate({"kind": "property", "case": lib.show_case(c), "all_at_once": ra[:1500], op: r[:1500],
                              "explanation": "reading all at once and %s see different paragraph sequences" % {"rslice": "decoding into a slice", "rdecode": "Decoder.Decode in a loop"}[op]})
+    # one reader used both ways: Next k times, then All for the rest
+    cm = [("rmix", [t, str(k).encode()]) for t in texts[::3] for k in (1, 2)]
+    i_m = chk.run_impl(cm)
+    chk.record(stream + "/next-then-all", cm, i_m)
+    all_of = dict(zip(texts, ia))
+    for c, r in zip(cm, i_m):
+        ra = all_of[c[1][0]]
+        if (ra.startswith("ok ") and r != ra) or (not ra.startswith("ok ") and r != "err"):
+            chk.violate({"kind": "property", "case": lib.show_case(c), "all_at_once": ra[:1500], "next_then_all": r[:1500],
+                         "explanation": "reading some paragraphs with Next and the rest with All on the same reader does not give the sequence that All alone gives"})
     for c, ra, rn in zip(ca, ia, i_n):
         okseq = ra[3:] + " eof" if ra.startswith("ok ") else None
         if (okseq is not None and rn != okseq) or (okseq is None and not rn.endswith(" err")):
